@@ -746,6 +746,14 @@ class AlgDomain(EventsMixin, Domain):
   def _inv(self, args, kwargs, node, st):
     a = args[0].d if args else UNKNOWN
     if isinstance(a, Poly) and a.kind == 'mat':
+      # tolerance arguments change which directions are inverted: a
+      # different operation than the plain (pseudo-)inverse
+      extra = sorted(k for k in kwargs if k not in ('check_finite', 'lower',
+                                                    'return_rank',
+                                                    'hermitian'))
+      if extra or len(args) > 1:
+        return Poly.sym('inv(%s;%s)' % (self._name_of(a), ','.join(
+            extra) or 'positional'), 'mat', symmetric=True)
       return Poly.sym('inv(%s)' % self._name_of(a), 'mat', symmetric=True)
     return UNKNOWN
 
@@ -763,6 +771,10 @@ class AlgDomain(EventsMixin, Domain):
 
   def on_call(self, kind, target, args, kwargs, node, st):
     EventsMixin.on_call(self, kind, target, args, kwargs, node, st)
+    if kind == 'repo' and target.name == '_initialize_metric_mahalanobis' \
+            and args:
+      self.prior_inputs = getattr(self, 'prior_inputs', [])
+      self.prior_inputs.append((args[0].d, self.site(node)))
     if kind == 'repo' and target.name == '_check_sdp_from_eigen' and args:
       d = args[0].d
       if isinstance(d, Vec):
